@@ -87,7 +87,19 @@ def check_object_history(c):
     kval = (K.ival, K.size)
     obj = guard(Salsa20 if kind == "salsa20" else Chacha, K, c["rounds"])
     tag = kind + ":object-history"
+    sib = None
+    if c.get("sib"):
+        # a second cipher object with another key (same or other class), built AFTER the first and used between its calls
+        skind = kind if c["sib"] == 1 else ("chacha" if kind == "salsa20" else "salsa20")
+        skey = bytes(255 - x for x in c["key"][::-1])
+        sib = guard(Salsa20 if skind == "salsa20" else Chacha, Bits(skey, bitorder=1), c["rounds"])
     for i, op in enumerate(c["ops"] + (("enc2", c["nonce"], bytes(range(100))),)):
+        if sib is not None and i % 2 == 1:
+            sm = bytes(range(70))
+            got = guard(sib.enc, Bits(c["nonce"], bitorder=1), sm)
+            exp = bytes(a ^ b for a, b in zip(sm, R.keystream(skind, skey, c["nonce"], c["rounds"], len(sm))))
+            if got != exp:
+                raise Violation(tag + ":sibling-object:enc!=M^keystream", {"call": i, "out": exp}, {"call": i, "out": got})
         if op[0] in ("enc", "dec", "enc2"):
             nonce, M = op[1], op[2]
             ks = R.keystream(kind, c["key"], nonce, c["rounds"], len(M))
@@ -127,13 +139,14 @@ def object_history_strategy(tier):
     msg = gen.blob_of(gen.pick((2, gen.uint(0, 70)), (1, st.sampled_from([0, 63, 64, 65, 128, 129])), (1, gen.uint(71, 200))))
     op = gen.pick((3, st.tuples(st.just("enc"), nonce, msg)), (2, st.tuples(st.just("dec"), nonce, msg)),
                   (1, st.tuples(st.just("ks"), nonce, gen.uint(1, 3))), (2, st.tuples(st.just("hash"), gen.blob(64))))
-    def build(conf, ops, force20):
+    def build(conf, ops, force20, sib):
+        conf = dict(conf, sib=sib)
         if force20 or (conf["cipher"] == "salsa20" and any(o[0] == "hash" for o in ops)):
             conf = dict(conf, rounds=20)
         if not ops[-1][0] in ("enc", "dec"):
             ops = ops + [("enc", conf["nonce"], bytes(range(70)))]
         return dict(conf, ops=tuple(ops))
-    return st.builds(build, conf_strategy(tier), st.lists(op, min_size=2, max_size=5), st.booleans())
+    return st.builds(build, conf_strategy(tier), st.lists(op, min_size=2, max_size=5), st.booleans(), st.sampled_from([0, 1, 1, 2]))
 
 
 def conf_strategy(tier):
@@ -261,9 +274,11 @@ FACETS = [
     Facet("object-histories", check_object_history, strategy=object_history_strategy, budget={"quick": 500, "thorough": 10000},
           nontrivial=lambda c: len(c["ops"]) >= 2,
           classify=lambda c: (c["cipher"], "has hash" if any(o[0] == "hash" for o in c["ops"]) and c["cipher"] == "salsa20" and c["rounds"] == 20 else "no hash",
-                              "has abandoned keystream" if any(o[0] == "ks" for o in c["ops"]) else "no abandoned keystream"),
+                              "has abandoned keystream" if any(o[0] == "ks" for o in c["ops"]) else "no abandoned keystream",
+                              ["no sibling object", "sibling of the same class", "sibling of the other class"][c.get("sib", 0)]),
           rule="ONE Salsa20/ChaCha object: 2..6 calls mixing enc/dec under different nonces and lengths, partly consumed keystream "
-               "generators and (Salsa20/20) core-hash calls; every output compared with the specification"),
+               "generators and (Salsa20/20) core-hash calls; in 3 of 4 cases a sibling object with another key (same or other class) is built "
+               "after it and used between its calls; a last object is built on the same key vector; every output compared with the specification"),
     Facet("salsa-core", check_core, strategy=core_strategy, budget={"quick": 300, "thorough": 10000},
           shards={"quick": 8, "thorough": 16}, nontrivial=lambda c: any(c["X"]), classify=lambda c: (),
           rule="Salsa20().hash(X) on random / constant / single-bit 64-byte inputs"),
